@@ -85,11 +85,14 @@ def generate(rng, tier):
         if cls in FAST3 and rng.random() < 0.6:
             k = 3
             gate = rng.choice([None, None, 'cat', 'xor', 'and', 'dup']) if cls in ('PID_MES', 'PID_RR', 'PID_Proj', 'PID_GK', 'PID_CCS') else None
-            d = gen_dist(rng, 3, binary=(cls in ('PID_CCS', 'PID_MES')), gate=gate)
+            # I_wedge enumerates the sigma-algebra of the support (2^atoms): binary alphabets only
+            d = gen_dist(rng, 3, binary=(cls in ('PID_CCS', 'PID_MES', 'PID_GK')), gate=gate)
         elif cls in SLOW3 or cls in ('PID_BROJA', 'PID_CT', 'PID_IG'):
             d = gen_dist(rng, 2, binary=True)
         else:
             d = gen_dist(rng, 2)
+            while cls == 'PID_GK' and len(d['outs']) > 12:
+                d = gen_dist(rng, 2)
         cases.append({'d': d, 'cls': cls, 'perm': rng.random() < 0.6, 'explicit': rng.random() < 0.5})
     # Gacs-Korner meets of three sources in which only some pair shares information
     for i in range(4 if tier == 'quick' else 30):
